@@ -62,6 +62,31 @@ def cases(rng, tier, X):
         for _ in range(3):
             ops.append('rx 1 ' + F.query(mapper, b, rng.randrange(1, 65536)))
         out.append(('cap%d' % k, ops))
+    # a long-lived B: thousands of observations recorded and reported (or hundreds of Emits executed by A) before the batch under test
+    for k in range(3 if tier == 'quick' else 60):
+        a, b = rng.sample(F.NEAR[:7], 2)
+        mapper = rng.choice(F.STATIONS)
+        ops = [F.iface_line(0, mac=a, mtu=1500), F.iface_line(1, mac=b, mtu=1500), F.glob_line(),
+               'rx 0 ' + F.discover(mapper, 1, 1), 'rx 1 ' + F.discover(mapper, 1, 1)]
+        if k % 3 == 2:
+            for i in range(rng.choice([260, 520])):
+                ops.append('rx 0 ' + F.emit(mapper, a, (i % 65535) + 1, [(i & 1, 0, '0c01%04x%04x' % (i >> 16, i & 0xffff), b)]))
+                ops.append('relay 0 1')
+                if i % 50 == 49:
+                    ops.append('rx 1 ' + F.query(mapper, b, (i % 65535) + 1))
+        else:
+            for i in range(8300 if k % 3 == 0 else 1100):
+                ops.append('rx 1 ' + F.probe('0e03%04x%04x' % (i >> 16, i & 0xffff) if k % 3 == 0 else F.STATIONS[2], b, F.STATIONS[3], b, train=bool(i & 1)))
+                if i % 60 == 59:
+                    ops.append('rx 1 ' + F.query(mapper, b, (i % 65535) + 1))
+        for _ in range(3):
+            ops.append('rx 1 ' + F.query(mapper, b, 7))
+        descs = [(rng.choice([0, 1]), 0, a if i == 0 else '0c02%04x%04x' % (k, i), b) for i in range(12)]
+        ops.append('rx 0 ' + F.emit(mapper, a, 77, descs))
+        ops.append('relay 0 1')
+        for _ in range(2):
+            ops.append('rx 1 ' + F.query(mapper, b, 78))
+        out.append(('long%d' % k, ops))
     # universal traffic (every frame type / sender / path / service / boundary value, 1..3 interfaces): this check's predicate on it
     for k in range(150 if tier == 'quick' else 6000):
         out.append(('u%d' % k, F.universal(rng)))
